@@ -55,10 +55,22 @@ var (
 		Metrics:   []string{"foo", "bar"},
 		Matchers:  []string{"", `a="x"`},
 		Unary:     []string{"sum(%s)", "sum by(a) (%s)", "sum without(a) (%s)", "abs(%s)"},
-		BinOps:    []string{"and", "*", "unless"},
-		Modifiers: []string{"", "on(a)", "ignoring(a)", "on(b) group_left(a)"},
+		BinOps:    []string{"and", "*"},
+		Modifiers: []string{"", "on(a)", "on(b) group_left(a)"},
 		Scalars:   []string{"1"},
 		Extra:     []string{"vector(1)"},
+	}
+	// a reduced fragment whose <=2-operator expressions can all be examined within the thorough budget (the full
+	// fragment has ~80 M of them): the thorough tier is complete for what it names, not a time-capped sample
+	frag2 = promqlgen.Alphabet{
+		Metrics:   []string{"foo", "bar"},
+		Matchers:  []string{"", `a="x"`, `a!="x"`},
+		Unary:     []string{"sum(%s)", "sum by(a) (%s)", "sum without(a) (%s)", "min by(b) (%s)", "abs(%s)", "%s > 0"},
+		RangeFns:  []string{"rate(%s[5m])"},
+		BinOps:    []string{"*", ">", "and", "or", "unless", "=="},
+		Modifiers: []string{"", "on(a)", "on()", "ignoring(b)", "on(a) group_left()", "on(a) group_left(c)"},
+		Scalars:   []string{"1", "0"},
+		Extra:     []string{"vector(1)", "vector(0)"},
 	}
 )
 
@@ -213,6 +225,33 @@ func candidates(expr string, node promParser.Expr, d deadReport) []candidate {
 				}
 			}
 			x = next
+		}
+		// a static comparison ("`1 > 1` is not possible") is a statement about one source on EACH side, but it is
+		// positioned at the left-hand one: the source it kills may just as well be an `or` alternative of the
+		// other operand (`1 > (vector(0) or vector(1))`: the vector(1) alternative, which indeed never counts)
+		if strings.Contains(d.reason, "always evaluates to") && b.Op.IsComparisonOperator() {
+			other := b.RHS
+			if o == b.RHS {
+				other = b.LHS
+			}
+			var alts func(e promParser.Expr)
+			alts = func(e promParser.Expr) {
+				for {
+					if p, ok := e.(*promParser.ParenExpr); ok {
+						e = p.Expr
+						continue
+					}
+					break
+				}
+				if ib, ok := e.(*promParser.BinaryExpr); ok && ib.Op == promParser.LOR {
+					for _, side := range []promParser.Expr{ib.LHS, ib.RHS} {
+						xr := side.PositionRange()
+						out = append(out, candidate{whole: expr[br.Start:br.End], without: expr[br.Start:xr.Start] + "zzz_none" + expr[xr.End:br.End]})
+						alts(side)
+					}
+				}
+			}
+			alts(other)
 		}
 		return nil
 	})
@@ -391,7 +430,7 @@ func body(c *explore.Chooser) *explore.Case {
 		e = promqlgen.Expr{Text: fmt.Sprintf(agg, sel+" "+op+" "+mod+" ("+r+")"), Metrics: map[string]bool{"foo": true, "bar": true}, Ops: 3}
 		ok = true
 	case "ops2":
-		e, ok = promqlgen.Gen(c, &frag, 2, "e")
+		e, ok = promqlgen.Gen(c, &frag2, 2, "e")
 	case "mini3":
 		e, ok = promqlgen.Gen(c, &mini, 3, "e")
 	}
@@ -473,12 +512,12 @@ func body(c *explore.Chooser) *explore.Case {
 func main() {
 	explore.Main(&explore.Config{
 		Property: "C12", Level: "exploration",
-		Rule:        "expressions of the property's fragment (selectors x 4 matcher sets, label-preserving functions, aggregations by/without, arithmetic/comparison/set operators x 9 matching modifiers, numbers and vector(n) operands): all with <=1 operator node, every unary wrapper around every <=1-operator expression, and the 3-operator shapes chain (U2(U1(sel)) op mod R, both orientations) reinclude (sel op mod1 (agg(bar) * mod2 sel3), label lists with repeated names), orjoin ((L1 or L2) op mod R, both orientations) and aggjoin (agg(sel op mod R)), the verdict being taken on a rule that has been analysed once before as in the real pipeline (thorough: also all with <=2 operator nodes and all with <=3 operator nodes of a small alphabet); for every 'dead code in query' problem of the real promql/impossible check, every binary operation the flagged position can belong to is evaluated by the vendored engine on EVERY database of <=2 series in which each series carries all labels a,b,c (values x|y) with constant values 0|1|2; a candidate is an enclosing binary operation B plus the flagged source X (the operand holding the position, or an `or` alternative of it holding the position); (B,X) is refuted on a database where B returns something and differs (labels and values) from B with X replaced by a selector matching nothing; the report is a false positive iff every candidate is refuted on some database",
+		Rule:        "expressions of the property's fragment (selectors x 4 matcher sets, label-preserving functions, aggregations by/without, arithmetic/comparison/set operators x 9 matching modifiers, numbers and vector(n) operands): all with <=1 operator node, every unary wrapper around every <=1-operator expression, and the 3-operator shapes chain (U2(U1(sel)) op mod R, both orientations) reinclude (sel op mod1 (agg(bar) * mod2 sel3), label lists with repeated names), orjoin ((L1 or L2) op mod R, both orientations) and aggjoin (agg(sel op mod R)), the verdict being taken on a rule that has been analysed once before as in the real pipeline (thorough: also all with <=2 operator nodes of a reduced fragment - 3 matcher sets, 6 wrappers, 6 operators, 6 modifiers - and all with <=3 operator nodes of a small alphabet; both complete, not time-capped); for every 'dead code in query' problem of the real promql/impossible check, every binary operation the flagged position can belong to is evaluated by the vendored engine on EVERY database of <=2 series in which each series carries all labels a,b,c (values x|y) with constant values 0|1|2; a candidate is an enclosing binary operation B plus the flagged source X (the operand holding the position, or an `or` alternative of it holding the position); (B,X) is refuted on a database where B returns something and differs (labels and values) from B with X replaced by a selector matching nothing; the report is a false positive iff every candidate is refuted on some database",
 		Assumptions: []string{"a dead Source carries a position but not the operation that killed it, so all enclosing binary operations are candidates and a report only counts as false when all are refuted (never alarms on a correct report)", "engine over our in-memory storage is the truth"},
 		Spaces:      []*explore.Space{{Name: "expressions", Body: body, Setup: setup, Bound: func(string) int { return -1 }}},
 		BudgetS: func(t string) int {
 			if t == "thorough" {
-				return 2400
+				return 3600
 			}
 			return 420
 		},
